@@ -103,11 +103,25 @@ def replay(beh, pats):
             st = beh[i]
             a = st["a"]
             if a == "Create":
-                objs[st["x"][0]] = DescriptorFormat(*pats[st["x"][1]])
+                pp = pats[st["x"][1]]
+                # positional or keyword arguments, in either order
+                # ... and now and then through a subclass (a "preset" class is still a descriptor-format context)
+                if i % 5 == 4:
+                    class Preset(DescriptorFormat):
+                        def __init__(self):
+                            super().__init__(pp[0], pp[1])
+                    objs[st["x"][0]] = Preset()
+                else:
+                    objs[st["x"][0]] = (DescriptorFormat(*pp) if i % 3 else
+                                        DescriptorFormat(sub_decay_pattern=pp[1], decay_pattern=pp[0]))
                 check(i)
             elif a == "Set":
                 try:
-                    DescriptorFormat.set_config(*pats[st["x"][0]])
+                    pp = pats[st["x"][0]]
+                    if i % 3:
+                        DescriptorFormat.set_config(*pp)
+                    else:
+                        DescriptorFormat.set_config(sub_decay_pattern=pp[1], decay_pattern=pp[0])
                     raised = False
                 except Exception:
                     raised = True
